@@ -230,7 +230,8 @@ Print Assumptions C19_spec_rejects_errors.
 (* CAPSTONE - link to the differential check: outside the regions of the three known findings
      region_conflict  an index name is used with two different sizes,
      region_plain     an output without MapSpec is an array of rank >= 2,
-     region_zsel      kind 1 = selection by the value of a zipped coordinate,
+     region_zsel      a kind 1 case in which some data variable carries a zipped coordinate (a selection by the
+                      value of a zipped coordinate is attempted),
    the observation of the model (Run_C19.run: resolve the request - constructing the auto-generated
    MapSpecs -, run the model of Pipeline.map, label, render) satisfies the executable statement `spec_ok`
    that the harness applies to the implementation's observations, for EVERY valid case.  The proof uses the
